@@ -76,7 +76,7 @@ def b_pi(n, m):
         # the data the parser captures never starts with white space (multispace1 is greedy) - unless it is empty
         first_ok = True if m == 0 else Not(xmlref.is_ws(d[0].c))
         cap = And(lang("pi", SStr(list(t) + [Ch(0x20)] + list(d)), pre="<?", post="?>"), lang("pi_target", t), first_ok)
-    return K.mk_obj("XmlProcessingInstruction", K.INFO, target=t, content=content), And(ct, cc, cap, lang("pi_target", t)), "pi", None
+    return K.mk_obj("XmlProcessingInstruction", K.INFO, target=t, content=content), And(ct, cc, cap, lang("pi_target", t)), "pi", ("pi", m is not None)
 
 
 def b_charref(radix, n):
@@ -281,6 +281,16 @@ def work(job):
                                 else:
                                     other.append(And(a, ce))
                 acc = And(acc, Or(*same), Not(Or(*other)))
+            if isinstance(mode, tuple) and mode[0] == "pi":
+                # Some("") and None print differently and must re-parse to what they were: the optional data part of
+                # the production is used iff the item has data
+                opts = active.find_nodes(g, node, lambda n: n.kind == "opt")
+                if len(opts) != 1:
+                    raise nomsem.Unsupported("pi production shape")
+                inner = opts[0].kids[0]
+                act = active.activation(run, node, acc)
+                used = Or(*[a for (nid, q), (n, a) in act.items() if nid == inner.id])
+                acc = And(acc, used if mode[1] else Not(used))
             if mode == "text-only":
                 body = g.body_of(node)
                 seq = body
@@ -297,6 +307,10 @@ def work(job):
             out["status"] = "sat"
             out["witness"] = {"item": name, "sizes": str(sizes), "printed": K.model_str(mdl, p["value"]) if p["kind"] != "panic" else None,
                               "panic": p.get("msg"), "production": prod}
+            if name == "pi":
+                tgt = K.model_str(mdl, probe.fields["target"])
+                cnt = probe.fields["content"]
+                out["witness"]["source"] = "<?%s?>" % tgt if cnt.variant == "None" else "<?%s %s?>" % (tgt, K.model_str(mdl, cnt.fields[0]))
         elif verdict == "unknown":
             out["status"] = "unknown"
             out["error"] = info
@@ -329,7 +343,7 @@ def main():
         case = json.load(open(args.replay))
         rr = rp.run({"op": "roundtrip", "input": case["input"]})
         print("replay %s -> %s" % (show(case["input"]), str(rr)[:300]))
-        bad = not rr.get("ok") or not rr.get("second", {}).get("ok") or rr.get("second", {}).get("printed") != rr.get("printed")
+        bad = not rr.get("ok") or not rr.get("second", {}).get("ok") or rr.get("second", {}).get("printed") != rr.get("printed") or rr.get("second", {}).get("equal") is False
         if bad:
             print("VIOLATION property=C04 replay=%s" % args.replay)
             return 1
@@ -366,6 +380,21 @@ def main():
             rep.obligation(oid, "inconclusive", witness=w)
             rep.inconclusive.append("%s: witness %s cannot be replayed through a document" % (oid, w))
             continue
+        if w.get("source"):
+            # the item as the parser produces it from `source`: print it, parse again, compare
+            doc = emb % w["source"]
+            rr = rp.run({"op": "roundtrip", "input": doc})
+            rep.replays += 1
+            sec = rr.get("second", {})
+            if rr.get("ok") and (not sec.get("ok") or not sec.get("equal") or sec.get("printed") != rr.get("printed")):
+                rep.obligation(oid, "violated", witness=w)
+                if name not in reported:
+                    reported.add(name)
+                    rep.violation(oid, {"op": "roundtrip", "input": doc, "item": name, "property": "C04"},
+                                  "%s prints as %s, which re-parses to a different document (equal=%s)" % (show(doc), show(rr.get("printed", "")), sec.get("equal")))
+                else:
+                    rep.violations.append((oid, None, ""))
+                continue
         doc = emb % w["printed"]
         # the printed form is not accepted by its production: a document containing it does not re-parse
         rr = rp.run({"op": "from_raw", "input": doc})
